@@ -38,6 +38,9 @@ def case_sexp(case):
         parts.append(('cond',) + tuple(case['cond']))
     if case.get('forall'):
         parts.append(('forall', case['forall'][0]) + tuple(case['forall'][1]))
+    if case.get('foralls'):
+        parts.append(('foralls',) + tuple((tuple(us),) + tuple(cs) for us, cs in case['foralls']))
+        parts.append(('fafirst', 1 if case.get('fafirst') else 0))
     if case.get('decl_order'):
         parts.append(('decl',) + tuple(case['decl_order']))
     return sexp(tuple(parts))
@@ -218,6 +221,13 @@ class Oracle:
             for c in fa[1]:
                 mentioned |= cond_vars(c)
             mentioned.discard(fa[0])
+        # and_(d?, for_all(us, c)...): a universal variable is free only where another conjunct mentions it
+        fas = case.get('foralls') or []
+        for us, cs in fas:
+            m = set()
+            for c in cs:
+                m |= cond_vars(c)
+            mentioned |= (m - set(us))
         vids = [v[0] for v in case['vars'] if v[0] in mentioned]
         doms = [self.dom(v) for v in vids]
         flats = []
@@ -231,6 +241,9 @@ class Oracle:
             for full in self._extend(flats, asg):
                 if all(self.holds(c, full) for c in (case.get('cond') or [])):
                     if fa and not all(all(self.holds(c, {**full, fa[0]: o}) for c in fa[1]) for o in self.dom(fa[0])):
+                        continue
+                    if not all(all(self.holds(c, {**full, **dict(zip(us, uc))}) for c in cs)
+                               for us, cs in fas for uc in itertools.product(*[self.dom(u) for u in us])):
                         continue
                     out.append(tuple(self.term_val(t, full) for t in case['sel']))
         return out
